@@ -133,6 +133,15 @@ def narrowing_templates():
                         ("bin", "add", ("call", V("g"), [("pre", "deref", V("c"))]), I(1))])
         T.append(pre + [("set", "xs", ("array", [("pre", "deref", V("c"))])),
                         ("ifset", "x", arr(SA_), V("xs"), ("block", [("assign", "set", V("out"), ("at", V("x"), I(0)))]), None), ("pre", "deref", V("out"))])
+    # destructuring a value whose type is a union of tuple types of DIFFERENT lengths has no length to go by: rejected; if it
+    # were accepted the names would have no honest type (a use at a type the value does not have must not get through)
+    TU = multi(tup(INT, STR), tup(INT, STR, FLOAT))
+    mk = ("fndecl", "mk", [("c", BOOL)], TU, [("if", V("c"), ("block", [("return", ("tuple", [I(1), ("s", "a")]))]), None), ("return", ("tuple", [I(2), ("s", "b"), ("f", 0.5)]))])
+    idS = ("fndecl", "ids", [("s", STR)], STR, [("return", V("s"))])
+    for arg in (("true",), ("false",)):
+        T.append([mk, idS, ("destruct", ["a", "b"], ("call", V("mk"), [arg])), ("call", V("ids"), [V("a")])])
+        T.append([mk, ("set", "out", ("mut", FLOAT, ("f", 0.0))), ("destruct", ["a", "b"], ("call", V("mk"), [arg])), ("assign", "set", V("out"), V("b")), ("pre", "deref", V("out"))])
+        T.append([mk, ("fndecl", "g", [("p", TU)], STR, [("destruct", ["a", "b"], V("p")), ("return", V("a"))]), ("call", V("g"), [("call", V("mk"), [arg])])])
     # stray signals after constant-condition loops and in function bodies
     for cond in (("true",), ("false",)):
         for sig in (("break",), ("continue",)):
